@@ -486,7 +486,23 @@ func check(id, tier string) int {
 		if tier == "thorough" {
 			ms = 120000
 		}
-		outs = append(outs, runShardAs(b, cfg, tier, seed, 0, 1, ms, []string{"VERIF_C13_MODE=extras", "VERIF_RANDOM_ONLY=1"}, "extras"))
+		// several short-lived processes rather than one long one: first-use effects (lazy
+		// initialisation racing between the first callers) show only in a fresh process
+		nproc := 4
+		if tier == "thorough" {
+			nproc = 12
+		}
+		exOuts := make([]shardOut, nproc)
+		var ewg sync.WaitGroup
+		for i := 0; i < nproc; i++ {
+			ewg.Add(1)
+			go func(i int) {
+				defer ewg.Done()
+				exOuts[i] = runShardAs(b, cfg, tier, seed, 0, 1, ms/2, []string{"VERIF_C13_MODE=extras", "VERIF_RANDOM_ONLY=1", fmt.Sprintf("VERIF_INDEX_BASE=%d", 900000000+uint64(i)*1000000)}, fmt.Sprintf("extras%d_", i))
+			}(i)
+		}
+		ewg.Wait()
+		outs = append(outs, exOuts...)
 		n := 120
 		if tier == "thorough" {
 			n = 2000
